@@ -1,3 +1,36 @@
 """vcheck configuration of work group D: PROPS = {"Cxx": {"families": [fam("name", quick_n, thorough_n)], "defects": ["Dn"]}}"""
 
-PROPS = {}
+PROPS = {
+    "C11": {
+        "families": [
+            fam("c11store", 150, 1500),   # every scenario = one c11.scan line + one c11.retrieve line
+            fam("c11pack", 2000, 50000),
+            fam("c11trim", 3000, 100000),
+        ],
+        "defects": [],
+        "rule": "c11store: 1-4 lists (ids from {min int32, -1, 0, 1, max int32, random}, 1 in 10 with a duplicate id) of generated "
+                "contents (LF/CRLF/no final newline, blank/comment/invalid lines, multi-byte UTF-8, Unicode spaces, NUL, 4-12 KiB lines) "
+                "scanned through the real RuleStorage over StringRuleLists AND FileRuleLists on real temp files (must agree), then "
+                "RetrieveRule for every yielded index plus off-by-one and garbage indices (some twice, for the cache); the parser is an "
+                "oracle table computed with the real rules.NewRule; c11pack: ruleListIdxToStorageIdx/storageIdxToRuleListIdx through the "
+                "Verif hooks; c11trim: strings.TrimSpace vs the model on byte strings built around every White_Space encoding, near "
+                "misses and cut sequences; non-trivial = a non-empty answer; distinct by hash of the op input",
+        "assumptions": ["rules.NewRule is a parameter of the model (TrimsFirst: it trims its input first); in the correspondence run it "
+                        "is an oracle table computed by the real rules.NewRule",
+                        "bufio.Reader.ReadBytes and os.File seek/read are modelled (any chunking of the block reads), not verified",
+                        "contents are shorter than 2^31 bytes and list ids fit int32, as the property quantifies"],
+    },
+    "C20": {
+        "families": [fam("c20html", 120, 1500)],
+        "defects": ["D12"],
+        "rule": "bodies over all 256 byte values (plain, or gzip-compressed by the harness with Content-Encoding: gzip) with 0..n markers "
+                "in random letter case placed before, inside, straddling and beyond the 16 KiB window, long runs of high bytes before "
+                "the marker (the D12 shape), near-markers (cut, with high bytes, Kelvin sign / long s), through proxy.VerifFilterHTML; "
+                "answer = new body, ContentLength, Content-Encoding and CSP headers still present; every 4th body also through "
+                "findBodyInjectionIndex; non-trivial = every answer (the body is always returned); distinct by hash of the op input",
+        "assumptions": ["compress/gzip is an oracle (the model receives the decompressed body)",
+                        "charmap.ISO8859_1 and strings.EqualFold are modelled on their reachable domain (see lean/UF/Model/Html.lean) and "
+                        "validated by the correspondence run",
+                        "the injected tag is ASCII (it is rendered from an ASCII template and the request hostname)"],
+    },
+}
